@@ -227,3 +227,80 @@ def c16_pattern_value_pairing(F, rep):
                     rep.check(ok, "C16-R7", key + ":suffix-anchored-at-len-minus-suffix",
                               "%s: the suffix patterns are not paired with the slice `values[len - suffix.len()..]` (`%s`)" % (it["name"], render(other)[:60]), "%s (mech_interpreter.lib)" % it["name"])
     rep.floor("C16-R7", "pattern/value zips in the matcher", n, 2)
+
+
+# ---------------------------------------------------------------- C11-R5
+def c11_offset_dimension(F, rep):
+    rep.rule("C11-R5", "variadic concatenation: the running offset advances by 1 per scalar entry and by the block's extent ALONG the concatenation dimension per matrix entry "
+                       "(columns = shape()[1] in horzcat, rows = shape()[0] in vertcat)")
+    want = {"horzcat": "1", "vertcat": "0"}
+    n = 0
+    for it in F.syn("mech_interpreter.lib"):
+        if it["k"] not in ("fn", "method") or not it.get("body"):
+            continue
+        mod = it["mod"].split("::")[-1]
+        if mod not in want or not it["name"].startswith("impl_"):
+            continue
+        per = {}
+        for x in walk(it["body"]):
+            if x[0] == "bin" and x[1] == "+=" and is_node(x[2]) and x[2][0] == "path":
+                rhs = re.sub(r"\s", "", render(x[3]))
+                m = re.match(r"^\(?(\w+)\.shape\(\)\[(\d)\]\)?$", rhs)
+                m2 = re.match(r"^\(?(\w+)\.(ncols|nrows)\(\)\)?$", rhs)
+                if rhs == "1":
+                    continue
+                n += 1
+                dim = m.group(2) if m else ({"ncols": "1", "nrows": "0"}[m2.group(2)] if m2 else None)
+                per[rhs] = per.get(rhs, 0) + 1
+                ok = dim == want[mod]
+                rep.check(ok, "C11-R5", "%s:%s:%s#%d" % (mod, x[2][1], rhs, per[rhs]),
+                          "%s (%s): the running offset `%s` advances by `%s`; a block occupies %s along the %s concatenation, so the next entry is placed inside or past the previous block" % (
+                              it["name"], mod, x[2][1], rhs, "its column count (shape()[1])" if mod == "horzcat" else "its row count (shape()[0])", "horizontal" if mod == "horzcat" else "vertical"),
+                          "%s (mech_interpreter.lib, %s)" % (it["name"], mod), sample={"module": mod, "increment": rhs})
+    rep.floor("C11-R5", "matrix-entry offset increments in the variadic concatenation arms", n, 40)
+
+
+# ---------------------------------------------------------------- C05-R7 / C10-R8
+def scope_restored_on_every_exit(F, rep, rule):
+    """every path from FunctionScope::enter to a return of the calling function - including the `?` early returns - restores the caller's
+    symbol table / plan / environment: through the guard's Drop (a drop terminator of the guard local), mem::drop of it, or an explicit exit call"""
+    rep.rule(rule, "user-function scope: every path from FunctionScope::enter to any return (Ok or Err) of the caller passes the restoration of the caller's symbols, plan and "
+                   "environment (Drop of the guard or an explicit exit) - an error inside a user function must not leave the interpreter pointing at the function's local tables")
+    bodies = {b.fn: b for b in F.bodies("mech_interpreter.lib")}
+    has_drop = any(re.match(r"^<mech_interpreter::functions::FunctionScope as core::ops::drop::Drop>::drop$", f) for f in bodies)
+    n = 0
+    for fn, b in sorted(bodies.items()):
+        for i, t in b.calls():
+            if not (t.get("f") or t.get("tf") or "").endswith("FunctionScope::enter"):
+                continue
+            n += 1
+            guard = t["d"][0]
+            release = set()
+            for j, bb in enumerate(b.blocks):
+                tt = bb["t"]
+                if tt["k"] == "drop" and tt["p"][0] == guard and tt["p"][1] == "" and has_drop:
+                    release.add(j)
+                if tt["k"] == "call":
+                    cal = tt.get("f") or tt.get("tf") or ""
+                    moved = any(isinstance(a, list) and a and a[0] == guard for a in tt.get("args", []))
+                    if moved and (re.search(r"core::mem::drop", cal) and has_drop or re.search(r"FunctionScope::(exit|leave|restore)", cal)):
+                        release.add(j)
+            # explicit mem::drop moves the guard through a temporary: follow one copy
+            tmp = {s["d"][0] for bb in b.blocks for s in bb["s"] if s.get("rk") in ("use",) and s.get("src") and isinstance(s["src"][0], list) and s["src"][0][0] == guard}
+            for j, bb in enumerate(b.blocks):
+                tt = bb["t"]
+                if tt["k"] == "call":
+                    cal = tt.get("f") or tt.get("tf") or ""
+                    if any(isinstance(a, list) and a and a[0] in tmp for a in tt.get("args", [])) and (re.search(r"core::mem::drop", cal) and has_drop or re.search(r"FunctionScope::(exit|leave|restore)", cal)):
+                        release.add(j)
+            start = t.get("t")
+            rets = {j for j, bb in enumerate(b.blocks) if bb["t"]["k"] == "ret"}
+            reach = b.reachable_from([start], avoid=release) if start is not None else set()
+            leak = sorted(reach & rets)
+            key = "%s:enter#%d" % (fn.split("::")[-1], n)
+            rep.check(not leak, rule, key,
+                      "%s: after FunctionScope::enter (line %s) a return is reachable without restoring the caller's scope (%s): an error raised inside the user function leaves "
+                      "the interpreter's symbol table, plan and environment switched to the function's local ones, so whatever is evaluated next (the rest of a literate document) sees the wrong variables" % (
+                          fn, t.get("l"), "the guard has no Drop impl and the early returns skip the explicit exit" if not has_drop else "a path avoids every drop of the guard"),
+                      b.where(), sample={"fn": fn, "guard_local": guard, "restoring_blocks": len(release), "guard_has_drop_impl": has_drop})
+    rep.floor(rule, "FunctionScope::enter call sites", n, 2)
